@@ -285,6 +285,11 @@ def _judge(case, ctx, spec, op, dense, part=None):
             if dt == torch.float32 or not kappa <= 100:
                 ctx.stat("lanczos_path_ill_conditioned(inconclusive)")
                 return
+            tl = 5e-3 * kap if q == "root_inv_decomposition" else 5e-3
+            if not torch.isfinite(R).all():
+                # (non-finite roots: reported under the reconstruction verdict; the rank / QR below cannot be evaluated)
+                verdict("reconstruction_at_full_krylov_rank", float("inf"), tl, extra="non-finite root")
+                return
             # orthogonal compression onto the space the root spans
             Qr, _ = torch.linalg.qr(R)
             rk = torch.linalg.matrix_rank(R)
